@@ -22,7 +22,13 @@ pub enum Op10
     ManualDespawn(u8),
     /// Make `.0` a child of `.1`.
     Reparent(u8, u8),
+    /// A burst: `.0` fresh entities are prepared and every signal is dropped again before the next collection; with
+    /// `.1` the entities are despawned by hand first (stale entries). At most one burst per history.
+    Burst(u16, bool),
 }
+
+/// Burst sizes offered by `enabled` (set per tier).
+pub static BURST_SIZES: std::sync::Mutex<Vec<u16>> = std::sync::Mutex::new(Vec::new());
 
 #[derive(Clone, Debug, PartialEq, Eq, Hash, Default)]
 pub struct Model10
@@ -33,6 +39,10 @@ pub struct Model10
     /// The last clone was dropped: the entity must be despawned by the next garbage collection.
     pub doomed: [bool; N_ENTS],
     pub parent: [Option<u8>; N_ENTS],
+    /// 0: no burst yet; 1: burst entities wait for the next collection; 2: collected.
+    pub burst: u8,
+    pub burst_size: u16,
+    pub burst_stale: bool,
 }
 
 impl Model10
@@ -82,6 +92,10 @@ impl Model10
             }
         }
         v.push(Op10::Gc);
+        if self.burst == 0
+        {
+            for k in BURST_SIZES.lock().unwrap().iter() { v.push(Op10::Burst(*k, false)); v.push(Op10::Burst(*k, true)); }
+        }
         v
     }
 
@@ -103,7 +117,9 @@ impl Model10
                 {
                     if self.doomed[i] { self.doomed[i] = false; self.kill_recursive(i); }
                 }
+                if self.burst == 1 { self.burst = 2; }
             }
+            Op10::Burst(k, stale) => { self.burst = 1; self.burst_size = k; self.burst_stale = stale; }
             Op10::ManualDespawn(e) =>
             {
                 // plain (non-recursive) despawn: children stay, without a parent
@@ -133,6 +149,7 @@ pub fn run10(hist: &[Op10]) -> StepResult<Key10>
     let ents: Vec<Entity> = (0..N_ENTS).map(|_| app.world_mut().spawn_empty().id()).collect();
     let mut model = Model10::new();
     let mut signals: Vec<Vec<AutoDespawnSignal>> = (0..N_ENTS).map(|_| Vec::new()).collect();
+    let mut burst_ents: Vec<Entity> = Vec::new();
     let mut violations: Vec<(String, String)> = Vec::new();
     let mut stop = false;
 
@@ -152,6 +169,21 @@ pub fn run10(hist: &[Op10]) -> StepResult<Key10>
             Op10::Gc => { garbage_collect_entities(world); }
             Op10::ManualDespawn(e) => { world.despawn(ents[e as usize]); }
             Op10::Reparent(e, p) => { world.entity_mut(ents[p as usize]).add_child(ents[e as usize]); }
+            Op10::Burst(k, stale) =>
+            {
+                let mut sigs = Vec::new();
+                for _ in 0..k
+                {
+                    let e = world.spawn_empty().id();
+                    sigs.push(world.resource::<AutoDespawner>().prepare(e));
+                    burst_ents.push(e);
+                }
+                if stale { for e in burst_ents.iter() { world.despawn(*e); } }
+                // a second clone of each, dropped in the opposite order
+                let clones: Vec<AutoDespawnSignal> = sigs.iter().rev().cloned().collect();
+                drop(sigs);
+                drop(clones);
+            }
         }
         model.apply(*op);
         if last
@@ -168,6 +200,15 @@ pub fn run10(hist: &[Op10]) -> StepResult<Key10>
                             op, model.alive[i], model.clones, model.doomed, model.parent)));
                     stop = true;
                 }
+            }
+            let burst_alive = burst_ents.iter().filter(|e| world.get_entity(**e).is_ok()).count();
+            let burst_expected = if model.burst == 1 && !model.burst_stale { model.burst_size as usize } else { 0 };
+            if burst_alive != burst_expected
+            {
+                let sig = if burst_alive > burst_expected { "burst-not-despawned-by-gc" } else { "burst-despawned-early" };
+                violations.push((sig.into(), format!("after {:?}: {burst_alive} of the {} burst entities exist, reference model expects {burst_expected}",
+                    op, model.burst_size)));
+                stop = true;
             }
             // idempotence: a second collection changes nothing
             if *op == Op10::Gc
@@ -186,7 +227,7 @@ pub fn run10(hist: &[Op10]) -> StepResult<Key10>
     let world = app.world_mut();
     let observed_alive = { let mut a = [false; N_ENTS]; for i in 0..N_ENTS { a[i] = world.get_entity(ents[i]).is_ok(); } a };
     let pending = hooks::snapshot(world).auto_despawn_pending;
-    let expected_pending = model.doomed.iter().filter(|d| **d).count();
+    let expected_pending = model.doomed.iter().filter(|d| **d).count() + if model.burst == 1 { model.burst_size as usize } else { 0 };
     if pending != expected_pending && !hist.is_empty()
     {
         violations.push(("signal-count".into(),
